@@ -413,11 +413,19 @@ impl StreamSocket {
     // Buffer and re-order received segments by `seq` as the network may deliver
     // them out of order.
     fn buffer(&mut self, seq: u64, segment: SequencedSegment) -> Result<(), Protocol> {
-        use mpsc::error::TrySendError::*;
-
         let exists = self.buf.insert(seq, segment);
 
         assert!(exists.is_none(), "duplicate segment {seq}");
+
+        self.drain()
+    }
+
+    // Move contiguous segments from the reorder buffer into the receive
+    // channel until the next one is missing or the channel is full. Also runs
+    // when the reader takes a segment off the channel, as a segment (FIN) that
+    // met a full channel is still parked in `buf`.
+    fn drain(&mut self) -> Result<(), Protocol> {
+        use mpsc::error::TrySendError::*;
 
         while self.buf.contains_key(&(self.recv_seq + 1)) {
             self.recv_seq += 1;
@@ -553,6 +561,15 @@ impl Tcp {
         };
 
         Ok(())
+    }
+
+    /// The reader took a segment off the receive channel: retry segments that
+    /// are parked in the reorder buffer because the channel was full.
+    pub(crate) fn drain_buffered(&mut self, pair: SocketPair) {
+        if let Some(sock) = self.sockets.get_mut(&pair) {
+            // The receiver is alive (it is the caller), so this cannot fail.
+            let _ = sock.drain();
+        }
     }
 
     /// Returns true if the given stream has any Data segments waiting in the
